@@ -142,7 +142,7 @@ PROPS = {
         "theorems": ["Goat.C17A.decode_sound", "Goat.C17A.decode_indep_pubkeyParses", "Goat.C17A.roundtrip_p2wpkh", "Goat.C17A.roundtrip_p2wsh", "Goat.C17A.roundtrip_p2tr", "Goat.C17A.roundtrip_p2pkh", "Goat.C17A.roundtrip_p2sh", "Goat.C17A.polymod_checksum", "Goat.C17A.checksum_unique", "Goat.C17A.convert5to8_convert8to5", "Goat.C17A.base58Decode_encode", "Goat.C17A.base58Encode_decode", "Goat.C17A.checkDecode_encode", "Goat.C17A.foreign_network_rejected", "Goat.C17A.simnet_segwit_rejected", "Goat.C17A.accepted_only_own_network", "Goat.C17A.p2pk_rejected", "Goat.C17A.accepted_canonical", "Goat.C17A.v1_20byte_decodes_to_v0_script", "Goat.C17A.decode_not_injective_on_types", "Goat.C17A.decode_injective_on_types_partial", "Goat.C17A.testnet3_signet_same",
                      "Goat.C17.v0_roundtrip", "Goat.C17.v0_accept_iff", "Goat.C17.v0_script_injective", "Goat.C17.v1_roundtrip",
                      "Goat.C17.v1_only_ecdsa", "Goat.C17.v1_accept_iff", "Goat.C17.system_script_ecdsa"],
-        "streams": [{"name": "addr", "quick": 4000, "thorough": 60000, "seeds": 16}],
+        "streams": [{"name": "addr", "quick": 4000, "thorough": 60000, "seeds": 16}, {"name": "bitcoin", "quick": 1500, "thorough": 12000, "seeds": 8}],
         "assumptions": ["SHA-256 / HASH160 / taproot tweak are parameters; 'for no other key/address' reduces to their collision resistance (hypothesis)",
                         "withdrawal address decoding (bech32/base58, btcd) is NOT modelled in Lean: the model's decodeAddr is an oracle stated by the harness from btcutil directly; the real DecodeBtcAddress is compared against it on all four networks"],
         "partial": "the address decoder of the model (GoatModel.Addr) re-implements btcutil/bech32/base58 and is tied to the real DecodeBtcAddress differentially (every addr.decode operation is computed by the model); elliptic-curve parsing of hex public keys is a parameter proved irrelevant",
